@@ -159,7 +159,12 @@ def read_plain(ctx):
         ctx.check(r == ('param', 2), short + '::write', body, 'the op is the value', '%s::write returns %s, expected the given value' % (short, fmt(r, 4)))
     body = ctx.inherent(GSET, 'read')
     r = versionless(interp(facts, body).ret)
-    ctx.check(r == ('field', ('param', 1), 'value'), 'GSet::read', body, 'returns value', 'GSet::read returns %s, expected self.value' % fmt(r, 4))
+    ok = r == ('field', ('param', 1), 'value')
+    if not ok and is_call(r, 'collect') and r[2]:
+        # a copy built element by element: every element of value, none dropped or transformed
+        base, kind, clo = iter_source(r[2][0])
+        ok = param_path(base) == (1, ('value',)) and not clo and not (set(iter_adaptors(r[2][0])) & LOSSY_ADAPTORS)
+    ctx.check(ok, 'GSet::read', body, 'returns value', 'GSet::read returns %s, expected self.value' % fmt(r, 4))
     body = ctx.inherent(GSET, 'contains')
     r = drop_lv(interp(facts, body).ret)
     ok = is_call(r, 'contains') and len(r[2]) == 2 and param_path(r[2][0]) == (1, ('value',)) and versionless(r[2][1]) == ('param', 2)
